@@ -1550,6 +1550,17 @@ impl VisitMut for Norm {
                             self.log("N7k-option-filter", sp);
                         }
                     }
+                    "or_else" if mc.args.len() == 1 && self.option_combinators && matches!(&mc.args[0], Expr::Closure(c) if c.inputs.is_empty() && !body_has_return(&c.body)) => {
+                        // N7m (option option_combinators=1): OPT.or_else(|| X) => match OPT { Some(x) => Some(x), None => X } (X stays lazily evaluated)
+                        if let Expr::Closure(c) = &mc.args[0] {
+                            let body = &c.body;
+                            let recv = &mc.receiver;
+                            let x = Ident::new("__hq_oe_x", Span::call_site());
+                            let ne: Expr = parse_quote!(match #recv { Some(#x) => Some(#x), None => #body });
+                            *e = ne;
+                            self.log("N7m-option-or_else", sp);
+                        }
+                    }
                     "then_some" if mc.args.len() == 1 => {
                         // N7e: B.then_some(X) => { let b = B; let x = X; if b { Some(x) } else { None } } (X is evaluated in both cases, after B)
                         let b = &mc.receiver;
